@@ -36,8 +36,10 @@ type (
 	}
 )
 
+// IsEnabled reports whether the block asks for TLS. A CA to verify the peer against counts as well: a block that names
+// only remoteCAPath would otherwise silently mean "no TLS at all" instead of being told what is missing.
 func (t TLSConfig) IsEnabled() bool {
-	return (t.CertificatePath != "" && t.KeyPath != "") || t.CAServerName != ""
+	return (t.CertificatePath != "" && t.KeyPath != "") || t.CAServerName != "" || t.RemoteCAPath != ""
 }
 
 var netClient HttpGetter = &http.Client{
